@@ -10,7 +10,8 @@ import EaselModel.Dist.Bisect
     functions (`Dist/Special.lean`, `erfcSun`) and the component choice of the mixture samplers (`Mix.dchoose`).
     `f fn=<name> a=<bits>,<bits>,…`            → `ok <bits>`
     `f2 fn=<g>,<f> a=<x>,<params…>`             → `ok <bits of g(f(x,params),params)>`
-    `sample fn=<name> seed=<n> k=<draws> a=…`  → `ok <bits>,…` (k successive samples from a fresh MT19937 generator) -/
+    `sample fn=<name> seed=<n> k=<draws> a=…`  → `ok <bits>,…` (k successive samples from a fresh MT19937 generator)
+    `vec fn=<DMax|DMin|DLogSum> v=<bits>,…`     → `ok <bits>` (the translated `esl_vec_D*` on `v`, `n = |v|`) -/
 open EaselModel EaselModel.Proto EaselModel.Random EaselModel.Dist
 
 def hex64 (x : UInt64) : String :=
@@ -171,6 +172,16 @@ def step (s : Unit) (line : String) : Unit × String :=
       | some (some v) => (s, s!"ok {hex64 v.toBits}")
       | some none => (s, "hang")
       | none => (s, "bad-op")
+    | _, _ => (s, "bad-op")
+  | "vec" :: _ =>
+    match arg? ws "fn", argList? ws "v" with
+    | some fn, some v =>
+      if v.isEmpty then (s, "bad-op") else
+      match fn with
+      | "DMax" => (s, s!"ok {hex64 (Gen.esl_vec_DMax v v.length).toBits}")
+      | "DMin" => (s, s!"ok {hex64 (Gen.esl_vec_DMin v v.length).toBits}")
+      | "DLogSum" => (s, s!"ok {hex64 (Gen.esl_vec_DLogSum v v.length).toBits}")
+      | _ => (s, "bad-op")
     | _, _ => (s, "bad-op")
   | "mixsample" :: _ =>
     match argNat? ws "seed", argNat? ws "k" with
